@@ -31,6 +31,37 @@ fn judge(acc: &mut Acc, what: &str, got: &Call<Vec<u8>>, want_err: Option<&str>,
     }
 }
 
+mod unknown_refs {
+    use desert::BinaryCodec;
+
+    #[derive(BinaryCodec)]
+    #[evolution(FieldAdded("gone", 0u8), FieldMadeOptional("gone"))]
+    pub struct AddedThenGone {
+        pub a: u32,
+    }
+
+    #[derive(BinaryCodec)]
+    #[evolution(FieldAdded("t", 0u8), FieldMadeOptional("t"))]
+    pub struct TransientWithoutStep {
+        pub a: u32,
+        #[transient(0u8)]
+        pub t: u8,
+    }
+
+    #[derive(BinaryCodec)]
+    pub enum InVariant {
+        #[evolution(FieldAdded("field1", 0u8), FieldMadeOptional("field1"))]
+        V(u32),
+    }
+
+    #[derive(BinaryCodec)]
+    #[evolution(FieldAdded("count", Some(0u8)), FieldMadeOptional("cuont"))]
+    pub struct Misspelt {
+        pub a: u32,
+        pub count: Option<u8>,
+    }
+}
+
 mod big_types {
     use desert::BinaryCodec;
 
@@ -138,6 +169,28 @@ pub fn c17(ctx: &mut Ctx, acc: &mut Acc) -> i32 {
                 let part = 800usize << 20;
                 let big = big_types::BigChunk { a: 1, b: vec![vec![0u8; part], vec![0u8; part], vec![0u8; part]] };
                 judge(acc, "chunk_over_2GiB", &ser(&big), Some("LengthTooLarge"), J::obj().with("chunk_bytes", J::u(3 * part as u64)));
+            }
+        }
+        // (c0) arrays whose length lives in the type: [(); N] for N beyond the 31-bit count costs nothing to build
+        {
+            let (a, b, c): ([(); 1usize << 31], [(); u32::MAX as usize], [(); (1usize << 32) + 3]) = ([(); 1usize << 31], [(); u32::MAX as usize], [(); (1usize << 32) + 3]);
+            judge(acc, "array_of_2^31_units", &ser(&a), Some("LengthTooLarge"), J::obj());
+            judge(acc, "array_of_2^32-1_units", &ser(&b), Some("LengthTooLarge"), J::obj());
+            judge(acc, "array_of_2^32+3_units", &ser(&c), Some("LengthTooLarge"), J::obj());
+            let d: [std::marker::PhantomData<String>; (1usize << 31) + 7] = [std::marker::PhantomData; (1usize << 31) + 7];
+            judge(acc, "array_of_2^31+7_phantoms", &ser(&d), Some("LengthTooLarge"), J::obj());
+        }
+        // (c1) steps that name fields which are not written, in the shapes a refactoring of a declaration leaves behind
+        {
+            use unknown_refs::*;
+            let cases: Vec<(&str, Call<Vec<u8>>)> = vec![
+                ("made_optional_names_an_added_field_that_is_gone", ser(&AddedThenGone { a: 7 })),
+                ("made_optional_names_a_transient_field_without_step", ser(&TransientWithoutStep { a: 7, t: 3 })),
+                ("made_optional_names_a_positional_field_that_is_gone", ser(&InVariant::V(7))),
+                ("made_optional_names_a_misspelt_field", ser(&Misspelt { a: 7, count: Some(1) })),
+            ];
+            for (what, got) in cases {
+                judge(acc, what, &got, Some("UnknownFieldReferenceInEvolutionStep"), J::obj());
             }
         }
         // (c) evolution metadata that references an unknown field
